@@ -180,6 +180,27 @@ pub struct KotoVm {
     instruction_ip: u32,
     // The current execution state
     execution_state: ExecutionState,
+    // An id for the VM, used by the verification hooks
+    #[cfg(koto_verif)]
+    verif_id: VerifVmId,
+}
+
+// The id of a VM as seen by the verification hooks, cloning a VM gives the clone a fresh id
+#[cfg(koto_verif)]
+struct VerifVmId(u32);
+
+#[cfg(koto_verif)]
+impl Default for VerifVmId {
+    fn default() -> Self {
+        Self(crate::verif::next_vm_id())
+    }
+}
+
+#[cfg(koto_verif)]
+impl Clone for VerifVmId {
+    fn clone(&self) -> Self {
+        Self::default()
+    }
 }
 
 /// The execution state of a VM
@@ -214,6 +235,8 @@ impl KotoVm {
             string_builders: Vec::new(),
             instruction_ip: 0,
             execution_state: ExecutionState::Inactive,
+            #[cfg(koto_verif)]
+            verif_id: VerifVmId::default(),
         }
     }
 
@@ -237,6 +260,8 @@ impl KotoVm {
             string_builders: Vec::new(),
             instruction_ip: 0,
             execution_state: ExecutionState::Inactive,
+            #[cfg(koto_verif)]
+            verif_id: VerifVmId::default(),
         }
     }
 
@@ -278,8 +303,64 @@ impl KotoVm {
         &self.context.settings.stderr
     }
 
+    // Records an event for the verification hooks
+    #[cfg(koto_verif)]
+    fn verif_event(&self, name: &'static str, a: i64, b: i64, s: &'static str) {
+        if crate::verif::enabled() {
+            crate::verif::emit(crate::verif::Event {
+                name,
+                vm: self.verif_id.0,
+                depth: self.call_stack.len(),
+                regs: self.registers.len(),
+                base: self.register_base,
+                seqb: self.sequence_builders.len(),
+                strb: self.string_builders.len(),
+                catches: self.call_stack.last().map_or(0, |f| f.catch_stack.len()),
+                a,
+                b,
+                s,
+            });
+        }
+    }
+
+    // The class of an error as seen by the verification hooks
+    #[cfg(koto_verif)]
+    fn verif_error_class(error: &Error) -> &'static str {
+        match &error.error {
+            ErrorKind::KotoError { .. } => "thrown",
+            ErrorKind::Timeout(_) => "timeout",
+            ErrorKind::EmptyCallStack
+            | ErrorKind::MissingSequenceBuilder
+            | ErrorKind::MissingStringBuilder
+            | ErrorKind::UnexpectedError => "internal",
+            _ => "runtime",
+        }
+    }
+
+    /// The id of the VM used in events recorded by the verification hooks
+    #[cfg(koto_verif)]
+    pub fn verif_id(&self) -> u32 {
+        self.verif_id.0
+    }
+
+    /// A summary of the VM's control state for the verification hooks:
+    /// (call stack size, register count, register base, sequence builders, string builders)
+    #[cfg(koto_verif)]
+    pub fn verif_state(&self) -> (usize, usize, usize, usize, usize) {
+        (
+            self.call_stack.len(),
+            self.registers.len(),
+            self.register_base,
+            self.sequence_builders.len(),
+            self.string_builders.len(),
+        )
+    }
+
     /// Runs the provided [Chunk], returning the resulting [KValue]
     pub fn run(&mut self, chunk: Ptr<Chunk>) -> Result<KValue> {
+        #[cfg(koto_verif)]
+        self.verif_event("RunEnter", 0, 0, "");
+
         // Set up an execution frame to run the chunk in
         let frame_base = self.next_register();
         self.registers.push(KValue::Null); // Instance register
@@ -306,6 +387,8 @@ impl KotoVm {
 
         // Reset the register stack back to where it was at the start of the run
         self.truncate_registers(frame_base);
+        #[cfg(koto_verif)]
+        self.verif_event("RunExit", result.is_ok() as i64, 0, "");
         result
     }
 
@@ -355,6 +438,9 @@ impl KotoVm {
         if !function.is_callable() {
             return unexpected_type("Function", &function);
         }
+
+        #[cfg(koto_verif)]
+        self.verif_event("CallFnEnter", 0, 0, "");
 
         let result_register = self.next_register();
         self.registers.push(KValue::Null); // Result register
@@ -411,6 +497,8 @@ impl KotoVm {
             // The call failed before a frame was set up (e.g. unexpected arguments),
             // remove the registers that were prepared for the call.
             self.truncate_registers(result_register);
+            #[cfg(koto_verif)]
+            self.verif_event("CallFnExit", 0, 0, "early");
             return Err(error);
         }
 
@@ -430,6 +518,9 @@ impl KotoVm {
         };
 
         self.truncate_registers(result_register);
+
+        #[cfg(koto_verif)]
+        self.verif_event("CallFnExit", result.is_ok() as i64, 0, "");
 
         result
     }
@@ -769,35 +860,58 @@ impl KotoVm {
         // than Active before exiting.
         self.execution_state = ExecutionState::Active;
 
+        #[cfg(koto_verif)]
+        self.verif_event("ExecEnter", timeout.is_some() as i64, 0, "");
+
         while let Some(instruction) = self.reader.next() {
             if let Some(timeout) = timeout.as_mut()
                 && timeout.check_for_timeout()
             {
                 self.execution_state = ExecutionState::Inactive;
-                return self
+                #[cfg(koto_verif)]
+                self.verif_event("Throw", self.instruction_ip as i64, 0, "timeout");
+                let timeout_result = self
                     .pop_call_stack_on_error(
                         ErrorKind::Timeout(timeout.execution_limit).into(),
                         false,
                     )
                     .map(|_| KValue::Null);
+                #[cfg(koto_verif)]
+                self.verif_event("Propagate", 0, 0, "timeout");
+                #[cfg(koto_verif)]
+                self.verif_event("ExecExit", 0, 0, "inactive");
+                return timeout_result;
             }
 
             match self.execute_instruction(instruction) {
                 Ok(ControlFlow::Continue) => {}
                 Ok(ControlFlow::Return(value)) => {
                     self.execution_state = ExecutionState::Inactive;
+                    #[cfg(koto_verif)]
+                    self.verif_event("ExecExit", 1, 0, "inactive");
                     return Ok(value);
                 }
                 Ok(ControlFlow::Yield(value)) => {
                     self.execution_state = ExecutionState::Suspended;
+                    #[cfg(koto_verif)]
+                    self.verif_event("ExecExit", 1, 0, "suspended");
                     return Ok(value);
                 }
-                Err(error) => match self.pop_call_stack_on_error(
+                Err(error) => match {
+                    #[cfg(koto_verif)]
+                    self.verif_event(
+                        "Throw",
+                        self.instruction_ip as i64,
+                        0,
+                        Self::verif_error_class(&error),
+                    );
+                    self.pop_call_stack_on_error(
                     error.clone(),
                     // Timeouts must not be caught by scripts, regardless of where they occurred
                     // (e.g. in a nested VM running a generator or an overridden operator).
                     !matches!(error.error, ErrorKind::Timeout(_)),
-                ) {
+                )
+                } {
                     Ok(CatchPoint {
                         error_register: recover_register,
                         catch_ip: ip,
@@ -821,6 +935,8 @@ impl KotoVm {
                             .resize(self.min_frame_registers, KValue::Null);
                         self.set_register(recover_register, catch_value);
                         self.set_ip(ip);
+                        #[cfg(koto_verif)]
+                        self.verif_event("Caught", ip as i64, self.instruction_ip as i64, "");
                     }
                     Err(mut error) => {
                         // The error hasn't been caught, so is being propagated outside of this.
@@ -830,6 +946,10 @@ impl KotoVm {
                             *vm = Some(self.spawn_shared_vm().into());
                         }
                         self.execution_state = ExecutionState::Inactive;
+                        #[cfg(koto_verif)]
+                        self.verif_event("Propagate", 0, 0, Self::verif_error_class(&error));
+                        #[cfg(koto_verif)]
+                        self.verif_event("ExecExit", 0, 0, "inactive");
                         return Err(error);
                     }
                 },
@@ -839,6 +959,8 @@ impl KotoVm {
         }
 
         self.execution_state = ExecutionState::Inactive;
+        #[cfg(koto_verif)]
+        self.verif_event("ExecExit", 1, 0, "end");
         Ok(KValue::Null)
     }
 
@@ -1111,9 +1233,13 @@ impl KotoVm {
                     string_builder_count: self.string_builders.len(),
                 };
                 self.frame_mut().catch_stack.push(catch_point);
+                #[cfg(koto_verif)]
+                self.verif_event("TryStart", self.instruction_ip as i64, catch_ip as i64, "");
             }
             TryEnd => {
                 self.frame_mut().catch_stack.pop();
+                #[cfg(koto_verif)]
+                self.verif_event("TryEnd", self.instruction_ip as i64, 0, "");
             }
             Debug { register, constant } => self.run_debug_instruction(register, constant)?,
             CheckSizeEqual { register, size } => self.run_check_size_equal(register, size)?,
@@ -3627,6 +3753,8 @@ impl KotoVm {
             .push(Frame::new(chunk.clone(), non_locals, new_frame_base));
         self.register_base = new_frame_base;
         self.set_chunk_and_ip(chunk, ip);
+        #[cfg(koto_verif)]
+        self.verif_event("FramePush", 0, 0, "");
     }
 
     // Pops the current frame from the call stack
@@ -3639,6 +3767,14 @@ impl KotoVm {
         let Some(popped_frame) = self.call_stack.pop() else {
             return runtime_error!(ErrorKind::EmptyCallStack);
         };
+
+        #[cfg(koto_verif)]
+        self.verif_event(
+            "FramePop",
+            popped_frame.execution_barrier as i64,
+            popped_frame.catch_stack.len() as i64,
+            "",
+        );
 
         if self.call_stack.is_empty() {
             // The call stack is empty, so clean up by resetting the register base.
